@@ -106,10 +106,27 @@ NAME_ALPHABETS = [
 ]
 
 
+def _look_alike(rng, n):
+    """A different name that a normalising file system or a careless comparison would take for n:
+    other letter case, or the other Unicode normal form."""
+    import unicodedata
+    try:
+        cands = [n.swapcase(), n.upper(), unicodedata.normalize('NFD', n), unicodedata.normalize('NFC', n), n + '\u0301']
+    except Exception:  # noqa
+        return None
+    cands = [c for c in cands if c != n]
+    return rng.choice(cands) if cands else None
+
+
 def gen_name(rng, used, allow_nonutf8=True):
     for _ in range(100):
         k = rng.random()
-        if k < 0.55:
+        n = None
+        if used and rng.random() < 0.06:
+            n = _look_alike(rng, rng.choice(sorted(used)))
+        if n is not None:
+            pass
+        elif k < 0.55:
             n = ''.join(rng.choice(NAME_ALPHABETS[0]) for _ in range(rng.randrange(1, 9)))
         elif k < 0.75:
             n = ''.join(rng.choice(NAME_ALPHABETS[1]) for _ in range(rng.randrange(1, 9)))
